@@ -78,6 +78,7 @@ CLAIMS['C07'] = ('index arithmetic of the byte buffer decided by linear constant
                  'postcondition (room >= n, readable length unchanged); append/fetch reserve-copy-commit and min-copy-consume shapes; copy independence incl. self-assignment alias safety; strong guarantee on allocation failure (nothing released or overwritten before a throwing new[]). FIFO equality '
                  'of contents as a history property stays undecided', '§10.6 (replaces the not-applicable of §5)',
                  'linear (affine) constant propagation + sign decision over chain slacks, on the clang CFG')
+FOLDING = {'C02', 'C03', 'C05', 'C06', 'C08', 'C09', 'C10', 'C12', 'C13', 'C14', 'C15', 'C17', 'C18', 'C19', 'C20'}
 NA = {
  'C07_old': 'every clause is value-level (byte equality, index arithmetic of the three-way space policy): needs a relational numeric domain or a solver, '
         'outside the static-analysis family as available here (DESIGN.md §5)',
@@ -87,6 +88,8 @@ checks = []
 for i in ids:
     if i in CLAIMS:
         text, ref, tech = CLAIMS[i]
+        if i in FOLDING and 'folding' not in tech:
+            tech += ' + finite-domain constant folding / replay of the guards, loops and small handlers found in the code'
         checks.append({
             'property_id': i,
             'quick_cmd': './check %s --tier quick' % i,
